@@ -401,6 +401,7 @@ def run(res, facts, tier):
     own = c19_own.run_rules(res, facts, tier)
     c19_own.r8_handover(res, facts, own)
     c19_own.r9_destruct_only(res, facts)
+    c19_own.r13_slot_stores(res, facts)
 
 
 # ----------------------------------------------------------------------------------------------- R10: a constructed object reaches an owner on every path
